@@ -151,7 +151,8 @@ class KeyMap:
         merged_df = df.assign(key_value=key_values.values)
 
         # Copy all the map_dict data into merged_df as new columns, merging on the map_dict_index number of both
-        remapped_df = pd.merge(merged_df, self.col_map, left_on='key_value', right_index=True,
+        # (as objects: an integer destination stays that integer when other rows of the table are unmapped)
+        remapped_df = pd.merge(merged_df, self.col_map.astype(object), left_on='key_value', right_index=True,
                                suffixes=('', '_new'), how='left').fillna("n/a")
 
         # Override the original columns with our newly calculated ones
